@@ -536,8 +536,12 @@ class Ctx:
         ev = {"property_id": self.prop, "tier": self.tier, "seed": self.seed, "level": level,
               "coverage": cov, "assumptions": list(getattr(self.module, "ASSUMPTIONS", [])),
               "wall_s": round(time.time() - self.t0, 2), "violations": viol}
-        os.makedirs(os.path.join(VERIF, "evidence"), exist_ok=True)
-        with open(os.path.join(VERIF, "evidence", "%s.json" % self.prop), "w") as fh:
+        # runs against a scratch copy of the repository (VERIF_REPO) must not overwrite the evidence
+        # of the registered checks, which always comes from /repo itself
+        evdir = os.path.join(VERIF, "evidence") if REPO == "/repo" else os.environ.get(
+            "VERIF_ALT_EVIDENCE", "/var/tmp/verif-alt-evidence")
+        os.makedirs(evdir, exist_ok=True)
+        with open(os.path.join(evdir, "%s.json" % self.prop), "w") as fh:
             json.dump(ev, fh, indent=1, default=str)
 
     def cleanup(self):
